@@ -53,6 +53,10 @@ use super::*;
 //@include prelude/visit_spec.rs
 //@include prelude/analyze_spec.rs
 //@include prelude/analyze_imports.rs
+//@include prelude/undecl_avail_spec.rs
+//@include prelude/undecl_spec.rs
+//@include prelude/visit_undecl.rs
+//@include prelude/analyze_undecl.rs
 //@include prelude/history_vocab.rs
 //@include prelude/memokeys_spec.rs
 //@include prelude/fs_canonical_decl.rs
